@@ -201,6 +201,16 @@ where R: LLLRing, for<'x> &'x R: LLLRingOps<R> {
         while self.data.step < m { 
             self.iterate();
         }
+
+        // normalize the pivots of the rows that never served as a reducer.
+        for i in 0..m { 
+            if let Some(j) = self.data.nz_col_in(i) { 
+                let u = self.data.target[(i, j)].normalizing_unit();
+                if !u.is_one() { 
+                    self.data.mul_row(i, &u);
+                }
+            }
+        }
     }
 
     fn iterate(&mut self) { 
@@ -308,6 +318,10 @@ where R: LLLRing, for<'x> &'x R: LLLRingOps<R> {
     }
 
     fn setup(&mut self) { 
+        if self.nrows() == 0 { 
+            return
+        }
+
         let (_, l, d) = orthogonalize(&self.target);
         self.lambda = Mat::from(l);
         self.det = d;
